@@ -308,6 +308,8 @@ func runCase() {
 		caseCrash(res, idx, dir, seed)
 	case "indexroll":
 		caseIndexRoll(res, dir)
+	case "boundary":
+		caseBoundary(res, idx, dir)
 	}
 	seam.Restore()
 	data, _ := json.Marshal(res)
@@ -758,4 +760,74 @@ func caseIndexRoll(res *caseResult, dir string) {
 	q2.Close()
 	res.Nontrivial = append(res.Nontrivial, "indexroll")
 	res.Sample = map[string]interface{}{"kind": "indexroll", "appends": n}
+}
+
+// ---- close/reopen placed exactly at page boundaries ----
+
+const indexItemsPerPage = 1024 * 256 // pkg/queue: index entries per index page
+
+// caseBoundary reopens the queue exactly at, one before and one after the point where an index page or a data
+// page is full, appends again and checks that every earlier sequence still holds its bytes.
+func caseBoundary(res *caseResult, idx int, dir string) {
+	st := newState(res)
+	qdir := filepath.Join(dir, "q")
+	q, err := queue.NewQueue(qdir, pageSize)
+	if err != nil {
+		st.violate("C05/open-fails", "NewQueue: %v", err)
+		return
+	}
+	ctr := 0
+	put := func(q queue.Queue, n int) bool {
+		rec := st.doPut(q, 1+ctr/(1<<24), ctr%(1<<24), n, nil)
+		ctr++
+		if rec.Err != "" {
+			st.violate("C05/put-fails", "Put %d (len %d): %s", ctr, n, rec.Err)
+			return false
+		}
+		return true
+	}
+	switch idx {
+	case 0, 1, 2: // index page boundary: reopen after indexItemsPerPage-1, indexItemsPerPage, indexItemsPerPage+1 appends
+		n := indexItemsPerPage - 1 + idx
+		res.Config = fmt.Sprintf("reopen after %d appends (index page holds %d entries)", n, indexItemsPerPage)
+		for i := 0; i < n; i++ {
+			if !put(q, 4+i%13) {
+				return
+			}
+		}
+	default: // data page boundary: the last message ends 1 byte before, exactly at, or would cross the end of the data page
+		first := pageSize - 1000 - 2 + (idx - 3) // idx 3,4,5
+		res.Config = fmt.Sprintf("reopen with the write position at %d of a %d byte data page", first+1000, pageSize)
+		if !put(q, first) || !put(q, 1000) {
+			return
+		}
+	}
+	res.Evals = 1
+	all := st.verifyAll(q, "before reopen", true, nil)
+	st.checkOrder(q, "before reopen", -1)
+	q.Close()
+	q2, err := queue.NewQueue(qdir, pageSize)
+	if err != nil {
+		st.violate("C05/reopen-fails", "%v", err)
+		return
+	}
+	all = st.verifyAll(q2, "after reopen at a page boundary", true, all)
+	for i := 0; i < 4; i++ {
+		if !put(q2, 40+i) {
+			return
+		}
+	}
+	all = st.verifyAll(q2, "after appends on the queue reopened at a page boundary", true, all)
+	st.checkOrder(q2, "after appends on the queue reopened at a page boundary", -1)
+	q2.Close()
+	q3, err := queue.NewQueue(qdir, pageSize)
+	if err != nil {
+		st.violate("C05/reopen-fails", "second reopen: %v", err)
+		return
+	}
+	st.verifyAll(q3, "after a second reopen", true, all)
+	q3.Close()
+	st.count("reopens_at_a_page_boundary", 1)
+	res.Nontrivial = append(res.Nontrivial, fmt.Sprintf("boundary%d", idx))
+	res.Sample = map[string]interface{}{"kind": "boundary", "config": res.Config, "sequences": len(all)}
 }
